@@ -1,7 +1,7 @@
 (* C17 - Genesis export/import round-trips and validated genesis initialises. *)
 From Coq Require Import String List ZArith Bool.
 From Orbiter Require Import Lib.Str Lib.Res Gen.Constants Model.Ids Model.Env Model.Payload Model.State Model.Pipeline Model.Msgs Model.Genesis
-     Proofs.GenesisProofs Props.Examples.
+     Proofs.GenesisProofs Proofs.GasHistories Props.Examples.
 Import ListNotations.
 Open Scope string_scope.
 Open Scope Z_scope.
@@ -23,6 +23,15 @@ Print Assumptions C17_init_invariant.
 Theorem C17_history_invariant : forall cfg e ops w, Inv (w_o w) -> Inv (w_o (final_world cfg e w ops)).
 Proof. exact history_inv. Qed.
 Print Assumptions C17_history_invariant.
+
+(* ... on ANY chain: whatever its Hyperlane hooks charge for gas, a history reaches a world that a history on the
+   chain without such hooks reaches too (the gas payments made explicit as plain movements), so the invariant holds *)
+Theorem C17_history_invariant_any_hooks : forall g cfg e ops w, Inv (w_o w) -> Inv (w_o (final_world_gas g cfg e w ops)).
+Proof. exact history_inv_gas. Qed.
+Print Assumptions C17_history_invariant_any_hooks.
+Theorem C17_history_invariant_simulated : forall g cfg e ops w, exists ops', final_world_gas g cfg e w ops = final_world cfg e w ops'.
+Proof. exact gas_history_simulated. Qed.
+Print Assumptions C17_history_invariant_simulated.
 
 (* exporting such a state yields a genesis that passes validation ... *)
 Theorem C17_export_valid : forall o, Inv o -> validate_genesis (export_genesis o) = Ok tt.
